@@ -168,9 +168,20 @@ def Limiter.run : Limiter → List Req → List (Req × Outcome Result)
 def admittedIn (tr : List (Rat × Bool)) (lo hi : Rat) : Nat :=
   (tr.filter fun (t, a) => a && decide (lo ≤ t) && decide (t ≤ hi)).length
 
+/-- was the request admitted? -/
+def admittedFlag : Outcome Result → Bool
+  | .ok res => res.isAllowed
+  | .panic => false
+
 /-- the admissions of client `c` in a limiter trace. -/
 def clientTrace (c : Nat) (tr : List (Req × Outcome Result)) : List (Rat × Bool) :=
-  (tr.filter (·.1.ip = c)).map fun (r, o) =>
-    (r.now, match o with | .ok res => res.isAllowed | .panic => false)
+  (tr.filter (·.1.ip = c)).map fun p => (p.1.now, admittedFlag p.2)
+
+/-- "while that client is tracked": client `c`'s entry survives every eviction performed while
+serving `reqs` (its bucket is never the `min_by_key` victim). -/
+def StaysTracked (c : Nat) : Limiter → List Req → Prop
+  | _, [] => True
+  | l, r :: rs => lookup (evictFor l.cfg l.buckets r.ip r.victim) c = lookup l.buckets c
+      ∧ StaysTracked c (l.checkWith r.ip r.now r.victim).1 rs
 
 end Varpulis.RateLimit
